@@ -2,6 +2,7 @@
 pub mod codec;
 pub mod conv;
 pub mod gen;
+pub mod mutate;
 pub mod props;
 pub mod refcodec;
 pub mod refcrypto;
